@@ -1,6 +1,7 @@
 pub mod arena;
 pub mod fork;
 pub mod gen;
+pub mod interpose;
 pub mod out;
 pub mod prng;
 
